@@ -311,9 +311,10 @@ pub fn gen_agg(rng: &mut Rng, depth: usize, risky: bool) -> Value {
         a["fixed_interval"] = json!(*rng.pick(&["1d", "12h", "7d", "36h", "30d", "2w"]));
       }
       let bounds = rng.below(5);
-      // (calendar interval + offset + bounds is left out: see the report — the fill loop of the
-      // code drops the offset after its first step)
-      if rng.chance(1, 3) && !(calendar && bounds <= 1) {
+      // calendar interval + offset + bounds: the fill loop of the code drops the offset after its
+      // first step (known finding date_histogram.calendar-offset-fill): only when risky
+      let fill_risk = risky && rng.chance(1, 3);
+      if (rng.chance(1, 3) && !(calendar && bounds <= 1)) || (fill_risk && calendar && bounds <= 1) {
         a["offset"] = json!(*rng.pick(&["1h", "30m", "0.5d", "6h"]));
       }
       let day = |rng: &mut Rng| -> String { rfc3339(DATE_BASE + rng.range(-20, 420) * 86_400_000 + rng.range(0, 23) * 3_600_000) };
@@ -336,7 +337,7 @@ pub fn gen_agg(rng: &mut Rng, depth: usize, risky: bool) -> Value {
       if rng.chance(1, 3) {
         a["min_doc_count"] = json!(rng.below(2));
       }
-      if risky && rng.chance(1, 3) {
+      if risky && rng.chance(1, 3) && !(fill_risk && calendar && bounds <= 1) {
         a["min_doc_count"] = json!(2);
       }
       with_subs(rng, a, depth, risky)
@@ -1434,6 +1435,18 @@ fn impl_views(reader: &searchlite_core::api::IndexReader, query: &Value, aggs: &
   }
 }
 
+/// switch off the per-segment thresholds of every node of a request (`aggs` map)
+fn neutralize_all(aggs: &mut Value) {
+  if let Some(m) = aggs.as_object_mut() {
+    for (_, a) in m.iter_mut() {
+      neutralize(a);
+      if let Some(sub) = a.get_mut("aggs") {
+        neutralize_all(sub);
+      }
+    }
+  }
+}
+
 /// kinds occurring in an aggregation tree
 fn kinds_of(agg: &Value, depth: usize, out: &mut Vec<(String, usize)>) {
   out.push((agg["type"].as_str().unwrap_or("").to_string(), depth));
@@ -1458,12 +1471,19 @@ fn candidate_sig(node: &Value) -> Option<&'static str> {
     "rare_terms" => Some("aggs.threshold-per-segment.rare_terms"),
     "histogram" if node.get("min_doc_count").and_then(|m| m.as_u64()).unwrap_or(0) >= 2 => Some("aggs.threshold-per-segment.histogram"),
     "date_histogram" if node.get("min_doc_count").and_then(|m| m.as_u64()).unwrap_or(0) >= 2 => Some("aggs.threshold-per-segment.date_histogram"),
+    "date_histogram" if fill_quirk(node) => Some("date_histogram.calendar-offset-fill"),
     "top_hits" if node.get("from").and_then(|m| m.as_u64()).unwrap_or(0) >= 1 => Some("top_hits.from-per-segment"),
     "composite" if node["sources"].as_array().map(|s| s.iter().any(|x| x["type"] == "histogram" && is_i64(x["field"].as_str().unwrap_or("")))).unwrap_or(false) => {
       Some("composite.histogram-i64")
     }
     _ => None,
   }
+}
+
+/// calendar interval + offset + (extended or hard) bounds
+fn fill_quirk(node: &Value) -> bool {
+  let has = |k: &str| node.get(k).map(|v| !v.is_null()).unwrap_or(false);
+  has("calendar_interval") && has("offset") && (has("extended_bounds") || has("hard_bounds"))
 }
 
 /// the node with its per-segment thresholds removed (limits that are applied once, after the
@@ -1484,6 +1504,11 @@ fn neutralize(node: &mut Value) {
     }
     "histogram" | "date_histogram" => {
       node["min_doc_count"] = json!(0);
+      if fill_quirk(node) {
+        if let Some(m) = node.as_object_mut() {
+          m.remove("offset");
+        }
+      }
     }
     "top_hits" => {
       node["from"] = json!(0);
@@ -1497,7 +1522,7 @@ impl Prop for C12 {
     "C12"
   }
   fn rule(&self) -> &'static str {
-    "case = (corpus of 1..24 docs over keyword/i64/f64 single- and multi-valued fast fields, 3..5 segment layouts of it incl. one segment and one doc per segment, some with deleted ghosts / stale versions, match_all or term query, 1..2 aggregation trees to depth 3); every layout is searched and compared with the Rust oracle and with the Lean mechanism model; non-trivial = at least two matched documents, at least two layouts with different segment counts, and a non-empty expected response; distinct = distinct case JSON"
+    "case = (corpus of 1..24 docs over keyword/i64/f64/date single- and multi-valued fast fields, 3..5 segment layouts of it incl. one segment and one doc per segment, some with deleted ghosts / stale versions, match_all or term query, 1..2 aggregation trees to depth 3); every layout is searched and compared with the Rust oracle and with the Lean mechanism model; non-trivial = at least two matched documents, at least two layouts with different segment counts, and a non-empty expected response; distinct = distinct case JSON"
   }
   fn count(&self, tier: Tier) -> usize {
     tier.pick(220, 10000)
@@ -1664,10 +1689,17 @@ impl Prop for C12 {
           empty_everywhere
         } else {
           // the one-segment layout is right, and without this node's thresholds every layout is
+          // every per-segment threshold of the tree switched off / only this node's left on
           let mut relaxed = work.clone();
-          if let Some(n) = node_at_mut(&mut relaxed, &d.path) {
-            neutralize(n);
+          neutralize_all(&mut relaxed);
+          let mut only_this = relaxed.clone();
+          if let Some(n) = node_at_mut(&mut only_this, &d.path) {
+            *n = node.clone();
+            if let (Some(src), Some(dst)) = (node_at(&relaxed, &d.path).and_then(|x| x.get("aggs")).cloned(), node_at_mut(&mut only_this, &d.path)) {
+              dst["aggs"] = src;
+            }
           }
+          let want_o = mt(&expected(&only_this), &only_this);
           let want_r = mt(&expected(&relaxed), &relaxed);
           let path_ok = |views: &BTreeMap<String, Value>, want: &BTreeMap<String, Value>| -> bool {
             want.iter().all(|(name, w)| match diff_view(name, views.get(name).unwrap_or(&Value::Null), w) {
@@ -1675,14 +1707,20 @@ impl Prop for C12 {
               None => true,
             })
           };
-          let single_ok = built.iter().zip(readers.iter()).filter(|(b, _)| b.segs.len() == 1).all(|(_, r)| impl_views(r, query, &work).map(|(v, _)| path_ok(&mt(&v, &work), &want_w)).unwrap_or(false));
+          let single_ok = built.iter().zip(readers.iter()).filter(|(b, _)| b.segs.len() == 1).all(|(_, r)| impl_views(r, query, &only_this).map(|(v, _)| path_ok(&mt(&v, &only_this), &want_o)).unwrap_or(false));
           let relaxed_ok = readers.iter().all(|r| impl_views(r, query, &relaxed).map(|(v, _)| path_ok(&mt(&v, &relaxed), &want_r)).unwrap_or(false));
-          single_ok && relaxed_ok && built[li].segs.len() > 1
+          if cand == "date_histogram.calendar-offset-fill" {
+            // independent of the layout: without the offset every layout is right
+            relaxed_ok
+          } else {
+            single_ok && relaxed_ok && built[li].segs.len() > 1
+          }
         };
         if ok {
           sig = cand.to_string();
           what = match cand {
             "composite.histogram-i64" => "composite aggregation with a histogram source over an i64 field returns no buckets".to_string(),
+            "date_histogram.calendar-offset-fill" => "date_histogram with calendar interval, offset and bounds: the empty buckets created from the bounds lose the offset after the first step (add_calendar drops the time of day)".to_string(),
             "top_hits.from-per-segment" => "top_hits applies `from` in every segment's finish() and again in every merge: wrong window when the hits are spread over several segments".to_string(),
             _ => format!("`{kind}` applies its doc-count threshold / size per segment before merging: wrong buckets when a key is spread over several segments"),
           };
@@ -1746,6 +1784,6 @@ impl Prop for C12 {
 
   fn finish(&self, _tier: Tier, s: &mut Summary) {
     s.notes.push("kinds generated and modelled: terms (size, min_doc_count, missing), rare_terms, range, histogram (offset, extended/hard bounds, missing, min_doc_count), stats, extended_stats, value_count, cardinality, percentiles/percentile_ranks (exact mode), filter, composite, top_hits (numeric sorts), date_range, date_histogram (fixed and calendar intervals, offset, bounds, missing, min_doc_count), sub-aggregations to depth 3".into());
-    s.notes.push("not generated (not modelled): significant_terms, sampling, shard_size, pipeline aggregations, t-digest mode of percentiles (> 256 values), duplicate range keys, MAX_BUCKETS, top_hits sorted by _score or keyword fields, date_histogram with calendar interval + offset + bounds".into());
+    s.notes.push("not generated (not modelled): significant_terms, sampling, shard_size, pipeline aggregations, t-digest mode of percentiles (> 256 values), duplicate range keys, MAX_BUCKETS, top_hits sorted by _score or keyword fields".into());
   }
 }
